@@ -45,6 +45,21 @@ CHECKS = {
         technique="bounded-exhaustive enumeration of hostile inputs (all truncations and bit flips of a corpus, all token sequences up to length 4/5, crafted nesting/length bombs) under a deterministic call-count meter and tracemalloc bound",
         text="3.6e6 (quick) inputs: every prefix and single-bit flip of every small valid encoding and of the three handshake messages (also through the real _recvClientHello/_recvChallengeResponse/_recvServerHello), every sequence of <=4 tokens over 33 tokens at the length limits, ~400 crafted inputs; each must finish within 64*len+512 interpreter calls (observed max 12.3/byte), stay under 64*len+1MiB, and end in a value of supported/registered types or an ordinary exception.",
         note="work measured in call events, memory by tracemalloc on the crafted family only; MemoryError and non-Exception escapes are violations; RecursionError is ordinary"),
+    "C15": dict(
+        engine="enum", category="exploration", design="5/C15",
+        technique="bounded-exhaustive enumeration of annotated class shapes x value alphabets through fromJson(toJson(x)) and loads(dumps(x)); structural equality including container types",
+        text="61 single-field annotation shapes (basic, nested, enum, List/Set/Tuple/Dict with int/str/enum keys) with complete small value alphabets, all 3721 ordered pairs of shapes in one class (field interaction) and a three-level nesting: 2.3e4 (quick) / 2.1e5 (thorough) objects; also plain-data and json.dumps acceptance of toJson output.",
+        note="values from small per-type alphabets; fields hold values of their annotated types; None only for container fields"),
+    "C19": dict(
+        engine="enum", category="exploration", design="5/C19",
+        technique="bounded-exhaustive enumeration: all ordered password pairs over a 3-symbol alphabet up to length 2/3, every single-site corruption of hash strings (reference encoder with cheap scrypt parameters + one real hash)",
+        text="All ordered pairs (p, q) of the 13 (quick) / 40 (thorough) byte strings over {a,b,NUL}: verify(q, hash(p)) == (p==q); two hashes per password differ in salt; 11 near-identical/long pairs; ~2000 corruptions (every truncation, field removal/duplication, per-character replace/delete/insert/non-base64, parameter, method, version edits) must raise ValueError/TypeError or return False.",
+        note="weakest reading of 'malformed': a damaged string that still denotes exactly the original (method, version, parameters, salt, digest) may verify; scrypt/sha256 trusted"),
+    "C20": dict(
+        engine="bfs", category="model_checking", design="5/C20",
+        technique="explicit-state BFS over operation sequences of the real Server/ClientMessageDispatcher with a dict reference model in lock-step; the registration map is observed through dispatch() after every operation; closed state graph",
+        text="18 operations (register/unregister of 5 resources incl. string annotations and two partial-conflict shapes, dispatch of 4 classes incl. an unregistered subclass, register_function by class/name, unregister_function) from every reachable state: the state graph closes (65 states per dispatcher, all 65x18 transitions executed on the implementation), so every operation sequence of any length over this alphabet is covered.",
+        note="alphabet of 5 resources / 4 message classes; partial effect of a refused registration and unregister of an unregistered resource are left open (observed outcome adopted within the allowed set)"),
 }
 
 NOT_YET = {
